@@ -22,6 +22,28 @@ CHECKS = {
         "bytes for replay and up to ~100 kB for recorded traces."),
   technique="TLC model checking + spec-history replay + TLC trace validation",
  ),
+ "C03": dict(
+  level="model_checking",
+  design_ref="DESIGN.md section 5, C03",
+  text=("FilterSpec states the stateless meaning of the current filter "
+        "settings (ranges, polygons, invalid removal, manual exclusions, "
+        "enable flag, event limit with reproducibility memo) and is the only "
+        "oracle; FilterImpl transcribes the incremental algorithm of "
+        "Filter.update (settings diff, box/polygon caches) and TLC checks "
+        "it against FilterSpec for all edit/apply interleavings in the "
+        "bound; every (edit; apply)* history of the spec up to the depth "
+        "bound on three data instances with NaN/inf/ties is replayed on a "
+        "real dataset with real PolygonFilter objects; TLC-simulated deep "
+        "schedules and long random sessions on 5..200-event datasets are "
+        "executed, recorded and validated by TLC against FilterTrace "
+        "(membership of every event decided inside TLC)."),
+  note=("values and bounds exactly representable (integers / quarters); "
+        "polygon edges never pass through data points (geometry is C15); "
+        "two scalar features, two polygon filters with two shapes each; "
+        "quick: 3 edit/apply pairs exhaustive + 2000 simulated schedules of "
+        "depth 14 + 40 random sessions; thorough: 4 pairs + 40000 + 400."),
+  technique="TLC model checking + spec-history replay + TLC trace validation",
+ ),
 }
 
 NOT_YET = "check not built yet (work in progress; see DESIGN.md section 5)"
